@@ -1435,6 +1435,7 @@ func init() {
 			runRow(c, r, bms)
 		}})
 		c05WaveD(x)
+		c05WaveE(x)
 	}
 }
 
